@@ -207,4 +207,16 @@ var configs = map[string]propCfg{
 			"Non-trivial = a definite-claim diagnostic; distinct by checker x side-condition class x message class.",
 		Assumptions: []string{"'suspicious' diagnostics are not definite claims and are not judged", "the Go runtime is the reference"},
 	},
+	"C04": {
+		Quick:    tierCfg{Shards: 10, Checks: 16, Limit: qLimit},
+		Thorough: tierCfg{Shards: 16, Checks: 400, Limit: tLimit},
+		Floor:    20,
+		Race:     true,
+		NeedBins: true, NeedRaceBins: true,
+		Rule: "the property test binary and the CLI are built with the race detector. cli-replica (55%): a generated program is analysed by the long-lived 107-checker set through a replica of cmd/go-critic's checkFile (goroutine per checker, semaphore of size k in {1,2,3,4,8,16,64,GOMAXPROCS}, disjoint result slots, barrier) with a generated start order; per-checker results must equal the sequential run. " +
+			"analyzer-parallel (35%): 2-6 goroutines call analyzer.Analyzer.Run on distinct analysis.Pass values at once (cache enabled; all hand-written checkers plus four rule groups), two rounds; each pass's diagnostics and edits must equal its sequential result. " +
+			"e2e (10%): the -race build of go-critic with -concurrency in {2,3,16,64} and GOMAXPROCS in {1,2,16} prints the same lines as -concurrency=1. Any race-detector report (halt_on_error, exit 66) is a violation whose signature is the two go-critic frames of the report. " +
+			"Non-trivial = >= 2 checkers with diagnostics at k >= 2, or parallel passes with diagnostics; distinct by case.",
+		Assumptions: []string{"interleavings are sampled, not enumerated; the race detector reports conflicting unsynchronised accesses that occur in a run largely independent of timing", wellTyped},
+	},
 }
